@@ -44,6 +44,77 @@ example : encode ⟨0, 2, [⟨0, 0, [100], 0, 0, 0⟩], false⟩ = [0x10, 0x10, 
   simp [encode, bitrates, w1]
   decide
 
+/-- Round trip, for every receiver state: the bytes of a valid allocation whose bitrates are below
+    2^56 kbps decode to the same allocation (resolution fields compared when present), and all of
+    them are consumed.  `hleb` (ReadLeb128 ∘ WriteToLeb128 = id below 2^56) is proved in
+    Rtp/Proofs/Leb128Go.lean as `Rtp.Model.readLebGo_writeLeb`. -/
+theorem c19_roundtrip_partial (hleb : Model.LebGoSpec) (v : VLA) (h : v.WF)
+    (hsmall : ∀ l ∈ v.layers, ∀ k ∈ l.rates, k < 2 ^ 56) (r : VLA) :
+    unmarshal r (encode v) = .ok (encode v).length v.norm :=
+  unmarshal_encode hleb v h hsmall r
+
+/-- the property as worded: every valid allocation, i.e. every non-negative Go `int` bitrate -/
+def c19_roundtrip_full : Prop :=
+  ∀ (v : VLA), v.WF → ∀ r : VLA, unmarshal r (encode v) = .ok (encode v).length v.norm
+
+/-- … which the code does not meet (open finding `c19_bitrate_2p56`): 2^56 kbps is written as nine
+    LEB128 bytes, of which ReadLeb128 keeps the last eight; it comes back as 2^49. -/
+theorem c19_roundtrip_witness :
+    (⟨0, 1, [⟨0, 0, [72057594037927936], 0, 0, 0⟩], false⟩ : VLA).WF ∧
+    encode ⟨0, 1, [⟨0, 0, [72057594037927936], 0, 0, 0⟩], false⟩ =
+      [0x01, 0x00, 0x80, 0x80, 0x80, 0x80, 0x80, 0x80, 0x80, 0x80, 0x01] ∧
+    ∀ r : VLA, unmarshal r [0x01, 0x00, 0x80, 0x80, 0x80, 0x80, 0x80, 0x80, 0x80, 0x80, 0x01] =
+      .ok 11 ⟨0, 1, [⟨0, 0, [562949953421312], 0, 0, 0⟩], false⟩ := by
+  refine ⟨by decide, ?_, ?_⟩
+  · have w : Model.writeLeb 72057594037927936 = [0x80, 0x80, 0x80, 0x80, 0x80, 0x80, 0x80, 0x80, 0x01] := by
+      rw [Model.writeLeb]; simp only [Nat.reduceLT, dite_false]
+      rw [Model.writeLeb]; simp only [Nat.reduceLT, Nat.reduceDiv, dite_false]
+      rw [Model.writeLeb]; simp only [Nat.reduceLT, Nat.reduceDiv, dite_false]
+      rw [Model.writeLeb]; simp only [Nat.reduceLT, Nat.reduceDiv, dite_false]
+      rw [Model.writeLeb]; simp only [Nat.reduceLT, Nat.reduceDiv, dite_false]
+      rw [Model.writeLeb]; simp only [Nat.reduceLT, Nat.reduceDiv, dite_false]
+      rw [Model.writeLeb]; simp only [Nat.reduceLT, Nat.reduceDiv, dite_false]
+      rw [Model.writeLeb]; simp only [Nat.reduceLT, Nat.reduceDiv, dite_false]
+      rw [Model.writeLeb]; simp only [Nat.reduceLT, Nat.reduceDiv, dite_true]
+      decide
+    simp [encode, bitrates, w]
+    decide
+  · intro r
+    show unmarshal default _ = _
+    decide
+
+theorem c19_roundtrip_full_false : ¬ c19_roundtrip_full := by
+  intro hfull
+  obtain ⟨hwf, henc, hdec⟩ := c19_roundtrip_witness
+  have := hfull _ hwf default
+  rw [henc, hdec default] at this
+  revert this
+  decide
+
+/-- The predicate the harness evaluates on the real code (kinds c19.rt / c19.rej) holds of the
+    model on every valid allocation outside the region of the open finding. -/
+theorem c19_rt_partial (hleb : Model.LebGoSpec) (v r : VLA) (h : v.WF) (hsmall : bigRate v = false) :
+    Pred.C19.rt v r (rtModel v r) = true := by
+  have hs : ∀ l ∈ v.layers, ∀ k ∈ l.rates, k < 2 ^ 56 := by
+    intro l hl k hk
+    simp only [bigRate, h, decide_true, Bool.true_and] at hsmall
+    rw [Bool.eq_false_iff] at hsmall
+    by_cases hc : k < 2 ^ 56
+    · exact hc
+    · exfalso; apply hsmall
+      exact List.any_eq_true.mpr ⟨l, hl, List.any_eq_true.mpr ⟨k, hk, by simp; omega⟩⟩
+  simp only [Pred.C19.rt, h, if_true, rtModel, c19_encode v h, c19_roundtrip_partial hleb v h hs r]
+  simp
+
+/-- non-vacuity of the round trip: the "3 streams mid paused" vector of TestVLAUnmarshal decodes to
+    a valid allocation with a paused stream, per-stream bitmasks and resolutions -/
+example : unmarshal default [0x60, 0x10, 0x10, 0x10, 0x96, 0x01, 0xd0, 0x05, 0xb0, 0x09, 0x01, 0x3f, 0x00,
+    0xb3, 0x1e, 0x04, 0xff, 0x02, 0xcf, 0x1e] =
+    .ok 20 ⟨1, 3, [⟨0, 0, [150], 320, 180, 30⟩, ⟨2, 0, [720, 1200], 1280, 720, 30⟩], true⟩ := by decide
+example : (⟨1, 3, [⟨0, 0, [150], 320, 180, 30⟩, ⟨2, 0, [720, 1200], 1280, 720, 30⟩], true⟩ : VLA).WF ∧
+    bigRate ⟨1, 3, [⟨0, 0, [150], 320, 180, 30⟩, ⟨2, 0, [720, 1200], 1280, 720, 30⟩], true⟩ = false := by
+  decide
+
 /-- Unmarshal, for every receiver and every byte string: no index out of range, and the reported
     number of consumed bytes never exceeds what was given (the predicate of kinds c19.dec/dec2). -/
 theorem c19_decoder_safe (r : VLA) (bs : Bytes) : Pred.C19.dec bs (unmarshal r bs) = true :=
